@@ -195,6 +195,12 @@ impl HalfConnection {
     }
 
     pub fn flush(&mut self, sink: &mut impl FrameSink) {
+        // Credit accrues up to the moment of flushing. If it were only granted in step(), the
+        // credit for the time since the previous step would be spent right after credit left over
+        // from before had been spent at the same instant (Client::step() and Server::step()
+        // flush before they step), and the two together exceed the bucket size.
+        self.fill_flush_alloc(time::Instant::now());
+
         // Send as many frames as possible
         self.emit_frames(self.now_ms, self.rtt_ms, self.rto_ms, self.flush_id, sink);
     }
